@@ -7,8 +7,8 @@ CHECK = {
     "harnesses": [
         {"exe": "c19_parameter", "flavour": "plain", "cases": (153440, 3068800), "procs": (8, 8),
          "subs": ["history", "history_exhaustive", "factory"]},
-        # thorough only: all histories of length <= 4, one (combination, first operation) cell per case (~ 640 cells)
-        {"exe": "c19_parameter", "flavour": "plain", "cases": (0, 13600), "procs": (1, 6),
+        # thorough only: all histories of length <= 4, one (combination, first operation) cell per case (693 cells, 20-fold)
+        {"exe": "c19_parameter", "flavour": "plain", "cases": (0, 13860), "procs": (1, 6),
          "subs": ["history_exhaustive"], "args": ["--sub", "history_exhaustive", "--deep"]},
     ],
     "min_nontrivial": (20000, 400000),
